@@ -64,7 +64,10 @@ def expected_on(v, variants):
         if need(lsk_rmc(), "whether the text ends in a left-standing sign (zo-fola slips under it)"):
             if v.T("popped_some") is False:
                 raise Infeasible()
-            return pre + [("pop",), ("push_str", "<value>"), ("push", "<popped>")]
+            # the zo-fola joins the consonant *under* the sign: that consonant decides about the joiner (Unicode-order typing would have had it
+            # as the last character when the zo-fola was typed)
+            cu = need(t_and(v.T("second_last_eq", c12.R_), t_not(v.T("third_last_eq", HASANTA))), "bare র under the left-standing sign before zo-fola")
+            return pre + [("pop",)] + ([("push", c12.ZWJ)] if cu else []) + [("push_str", "<value>"), ("push", "<popped>")]
         return pre + [("push_str", "<value>")]
     if need(t_and(v.T("value_is", kvp.REPH), v.cfg("get_fixed_old_reph")), "reph key ∧ old-reph option"):
         return [("call", "<reph>")]
@@ -286,7 +289,7 @@ def run(ctx):
             if sig not in seen:
                 seen.add(sig)
                 r5.violation("undecided:" + sig[:140], "an option-on path outside the feature's situations never tests %s" % why, site_of(b, s.path[-2][0]))
-        elif want != effects:
+        elif not c12.same_effects(want, effects):
             if sig not in seen:
                 seen.add(sig)
                 r5.violation("frame:" + sig[:140], "with the option on (and no left-standing sign involved) the processor does %s; with it off the same key does %s"
@@ -337,7 +340,7 @@ def run(ctx):
         effects = [("call", "<reph>") if (e[0] == "call" and e[1] == reph_fn) else e for e in s.effects]
         try:
             want = expected_on(v, variants)
-            verdict = None if want == effects else ("effects", want)
+            verdict = None if c12.same_effects(want, effects) else ("effects", want)
         except Infeasible:
             continue
         except c12.Undecided as e:
